@@ -274,3 +274,184 @@ def standard_check_explained(ctx, spec):
         vlib.standard_check(ctx, spec)
     finally:
         vlib.finish = orig
+
+
+# ============================================================================ C39 quorum helpers
+
+Q_INST = [(1, 1), (2, 2), (3, 3), (1, 2), (1, 3), (2, 3), (2, 4)]
+
+
+def compositions(n, limit=None):
+    """all ways to cut a sequence of length n into consecutive non-empty batches (as cut masks)"""
+    out = []
+    for mask in range(1 << max(0, n - 1)):
+        cuts = [i + 1 for i in range(n - 1) if mask >> i & 1]
+        out.append(cuts)
+        if limit and len(out) >= limit:
+            break
+    return out
+
+
+def cut(seq, cuts):
+    res, prev = [], 0
+    for c in cuts + [len(seq)]:
+        res.append(seq[prev:c])
+        prev = c
+    return res
+
+
+def gen_quorum(rng, tier):
+    """one response sequence + several batchings of it (all of them when short)"""
+    fn = rng.choice(["cq", "cq", "cqr", "cqr", "cqr"])
+    mn, mx = rng.choice(Q_INST)
+    nkeys = rng.range(1, 3)
+    over = rng.chance(1, 10)           # occasionally violate the <= max precondition
+    seq = []
+    val = [10]
+    for k in range(1, nkeys + 1):
+        cnt = rng.range(0, mx) if not over else rng.range(mx, mx + 2)
+        for _ in range(cnt):
+            val[0] += 1
+            ok = rng.chance(3, 4)
+            seq.append([k, val[0] if ok else None, val[0]])   # [key, ok value | None, err value]
+    seq = rng.shuffle(seq)
+    n = len(seq)
+    if n <= (5 if tier == "quick" else 7):
+        cutsets = compositions(n)
+    else:
+        cutsets = [sorted(rng.sample(list(range(1, n)), rng.below(n))) for _ in range(8 if tier == "quick" else 24)]
+        cutsets.append([])
+        cutsets.append(list(range(1, n)))
+    runs = []
+    for cs in cutsets:
+        batches = cut(seq, cs)
+        # sprinkle empty ticks
+        if rng.chance(1, 4):
+            batches.insert(rng.below(len(batches) + 1), [])
+        runs.append(batches)
+    case = {"k": "quorum", "fn": fn, "mn": mn, "mx": mx, "seq": seq, "batchings": runs}
+    return with_harness_fields(case)
+
+
+def with_harness_fields(case):
+    """the harness reads `flow` + `runs` (quorum) or `flow` + `ticks` (join)"""
+    case = dict(case)
+    if case["k"] == "join":
+        case["flow"] = "jr"
+    else:
+        fn = case["fn"]
+        case["flow"] = "%s_%d_%d" % (fn, case["mn"], case["mx"])
+        case["runs"] = [[{"a": [q_item(fn, it) for it in b]} for b in run] for run in case["batchings"]]
+    return case
+
+
+def gen_join(rng, tier):
+    nk = rng.range(1, 5)
+    keys = list(range(1, nk + 1))
+    late = rng.chance(1, 8)            # response before its metadata (outside documented usage)
+    dup = rng.chance(1, 12)
+    nt = rng.range(1, 6)
+    ticks = [{"m": [], "r": []} for _ in range(nt)]
+    for k in keys:
+        tm = rng.below(nt)
+        ticks[tm]["m"].append([k, 100 + k])
+        if rng.chance(4, 5):
+            tr = rng.range(tm, nt - 1) if not late else rng.below(nt)
+            ticks[tr]["r"].append([k, 200 + k])
+        if dup and rng.chance(1, 2):
+            ticks[rng.below(nt)]["r"].append([k, 300 + k])
+    return with_harness_fields({"k": "join", "ticks": ticks})
+
+
+def q_item(fn, it):
+    k, okv, errv = it
+    if fn == "cq":
+        return [k, None if okv is not None else errv]
+    return [k, {"ok": okv} if okv is not None else {"err": errv}]
+
+
+def g_resp(fn, it):
+    k, okv, errv = it
+    if okv is None:
+        return "(%d%%N, RErr %d%%N)" % (k, errv)
+    return "(%d%%N, ROk %d%%N)" % (k, 0 if fn == "cq" else okv)
+
+
+def g_pairsN(ps):
+    return vlib.g_list(["(%d%%N, %d%%N)" % (a, b) for a, b in ps])
+
+
+def quorum_term(case, res):
+    if "panic" in res or "hang" in res or "crash" in res or "not_compiled" in res or "garbled" in res:
+        return 3
+    if case["k"] == "join":
+        ts = []
+        for t, o in zip(case["ticks"], res["ticks"]):
+            outs = vlib.g_list(["(%d%%N, (%d%%N, %d%%N))" % (k, mv[0], mv[1]) for k, mv in o["out"]])
+            ts.append("((%s, %s), %s)" % (g_pairsN(t["m"]), g_pairsN(t["r"]), outs))
+        return "(chk_jr %s)" % vlib.g_list(ts)
+    fn = case["fn"]
+    runs = []
+    for run, rr in zip(case["batchings"], res["runs"]):
+        ts = []
+        for b, o in zip(run, rr["ticks"]):
+            if fn == "cq":
+                ok = vlib.g_list(["%d%%N" % k for k in o["ok"]])
+            else:
+                ok = g_pairsN(o["ok"])
+            ts.append("(%s, (%s, %s))" % (vlib.g_list([g_resp(fn, it) for it in b]), ok, g_pairsN(o["err"])))
+        runs.append(vlib.g_list(ts))
+    return "(chk_%s %d %d %s)" % (fn, case["mn"], case["mx"], vlib.g_list(runs))
+
+
+def quorum_finding_key(case, res):
+    """the one known class: collect_quorum_with_response with min < max reports, for a key that
+    reached its quorum, also the successes that arrived later IN THE SAME BATCH -- so the reported
+    (key,value) multiset depends on the batching.  The key applies only if every tick of every run
+    obeys the per-tick rule (all successes so far of exactly the keys due in that batch) and the
+    error side is exact, i.e. nothing else is wrong."""
+    if case.get("k") != "quorum" or case["fn"] != "cqr" or not case["mn"] < case["mx"] or "runs" not in res:
+        return None
+    mn = case["mn"]
+    flat = []
+    for run, rr in zip(case["batchings"], res["runs"]):
+        seen = []
+        allok = []
+        for b, o in zip(run, rr["ticks"]):
+            before = {}
+            for k, okv, _ in seen:
+                before[k] = before.get(k, 0) + (okv is not None)
+            after = dict(before)
+            for k, okv, _ in b:
+                after[k] = after.get(k, 0) + (okv is not None)
+            due = [k for k in after if before.get(k, 0) < mn <= after[k]]
+            want = sorted([k, okv] for k, okv, _ in seen + b if okv is not None and k in due)
+            if sorted(o["ok"]) != want:
+                return None
+            if o["err"] != [[k, e] for k, okv, e in b if okv is None]:
+                return None
+            seen += b
+            allok += o["ok"]
+        flat.append(sorted(allok))
+    if all(f == flat[0] for f in flat):
+        return None
+    return "cqr/min<max/values-depend-on-batching"
+
+
+def shrink_quorum(case):
+    if case["k"] == "join":
+        for i, t in enumerate(case["ticks"]):
+            for f in ("m", "r"):
+                for j in range(len(t[f])):
+                    ticks = [dict(x) for x in case["ticks"]]
+                    ticks[i] = dict(t, **{f: t[f][:j] + t[f][j + 1:]})
+                    yield with_harness_fields(dict(case, ticks=ticks))
+        return
+    # fewer batchings, then fewer responses (re-cut every batching)
+    bs = case["batchings"]
+    if len(bs) > 2:
+        for i in range(len(bs)):
+            yield with_harness_fields(dict(case, batchings=bs[:i] + bs[i + 1:]))
+    for it in case["seq"]:
+        nb = [[[x for x in b if x != it] for b in run] for run in bs]
+        yield with_harness_fields(dict(case, seq=[x for x in case["seq"] if x != it], batchings=nb))
